@@ -364,6 +364,7 @@ func (fv *FV) havocGhostInFrame(st *State) {
 	for _, n := range names {
 		s := fv.u.db.GGlobal[n]
 		st.ghost[n] = Val{T: fv.fresh("gg_"+n, s), S: s}
+		fv.natGhost(st, n)
 	}
 }
 
